@@ -49,6 +49,20 @@ def gen_cases(rng, tier, ctx):
                 for mac in (1, 0) if delta == 0 else (1,):
                     cs.append({'line': gen.encode_line(d, [i], 63, mac, 0, None).replace('encode', 'rt', 1), 'cat': 'envelope-at-capacity',
                                'cfg': dict(data=d, wl=[i], modes=63, macros=bool(mac), fnc1=False, eci=None)})
+    # the bodies on which the end-of-data rules of the mode encoders and the planner's count of written codewords matter (symbol lists
+    # with capacities one or two apart; a long Base256 run followed by another scheme that ends at a capacity), inside an envelope and
+    # behind an FNC1 start: one codeword precedes the body, which moves every boundary by one
+    fam = gen.adjacent_capacity_cases(rng, tier) + [c for c in gen.constant_cases(rng, tier) if c['cat'].startswith('b256-then-')]
+    for c in fam:
+        g = c['cfg']
+        if tier == 'quick' and g['modes'] != 63:
+            continue
+        h = rng.choice([gen.H05, gen.H06])
+        d = h + g['data'] + gen.TRAIL
+        cs.append({'line': gen.encode_line(d, g['wl'], g['modes'], 1, 0, None).replace('encode', 'rt', 1), 'cat': 'envelope-' + c['cat'],
+                   'cfg': dict(data=d, wl=g['wl'], modes=g['modes'], macros=True, fnc1=False, eci=None)})
+        cs.append({'line': gen.encode_line(g['data'], g['wl'], g['modes'], 1, 1, None).replace('encode', 'rt', 1), 'cat': 'fnc1-' + c['cat'],
+                   'cfg': dict(data=g['data'], wl=g['wl'], modes=g['modes'], macros=True, fnc1=True, eci=None)})
     return cs
 
 
